@@ -141,7 +141,7 @@ def norm(st: dict) -> dict:
                  'expunged': sorted(la['expunged']),
                  'pairs': sorted([list(p) for p in la['pairs']]),
                  'exists': la['exists'], 'uidnext': la['uidnext'],
-                 'choice': sorted(la['choice'])},
+                 'choice': sorted([list(c) for c in la['choice']])},
     }
 
 
@@ -154,13 +154,17 @@ def unjson(st: dict) -> dict:
     return st
 
 
-def cfg_text(*, kw: bool, lat, appendkw, inits, maxcmds: int, maxuid: int,
-             profile: str, twolevel: bool, props: bool) -> str:
+BOTH = ('lenient', 'strict')
+
+
+def cfg_text(*, kw: bool, latoor=BOTH, latrec=BOTH, appendkw=('keep', 'drop'), inits,
+             maxcmds: int, maxuid: int, profile: str, twolevel: bool, props: bool) -> str:
     def sset(xs):
         return '{' + ', '.join('"%s"' % x for x in sorted(xs)) + '}'
     lines = ['SPECIFICATION Spec', 'CONSTANTS',
              f'  KwPermitted = {"TRUE" if kw else "FALSE"}',
-             f'  Lat = {sset(lat)}', f'  AppendKw = {sset(appendkw)}',
+             f'  LatOor = {sset(latoor)}', f'  LatRec = {sset(latrec)}',
+             f'  AppendKw = {sset(appendkw)}',
              f'  Inits = {sset(inits)}', f'  MaxCmds = {maxcmds}',
              f'  MaxUid = {maxuid}', f'  Profile = "{profile}"',
              f'  TwoLevel = {"TRUE" if twolevel else "FALSE"}',
@@ -1104,7 +1108,7 @@ class Driver:
                 if r.get('dst') is not None:
                     dst = r['dst']
                     chosen[(n, l)] = dst
-                    obs_choices.update(r['choice'])
+                    obs_choices.update(tuple(c) for c in r['choice'])
                     if dst not in route:
                         route[dst] = (route[n][0], route[n][1] + [(l, dst)])
                         nxt.append(dst)
@@ -1149,8 +1153,7 @@ class Driver:
 
 
 def _graph(drv: Driver, profile: str, kw: bool, maxcmds: int):
-    cfg = drv.write_cfg(f'g_{profile}_{int(kw)}.cfg', kw=kw, lat=['lenient', 'strict'],
-                        appendkw=['keep', 'drop'], inits=['std'], maxcmds=maxcmds,
+    cfg = drv.write_cfg(f'g_{profile}_{int(kw)}.cfg', kw=kw, inits=['std'], maxcmds=maxcmds,
                         maxuid=9, profile=profile, twolevel=False, props=True)
     graph, res = tlc.dump_graph(SPEC, cfg, workers=8)
     name = f'RefMailbox graph profile={profile} kw={kw} maxcmds={maxcmds}'
@@ -1161,14 +1164,17 @@ def _graph(drv: Driver, profile: str, kw: bool, maxcmds: int):
 def _simulate(drv: Driver, kw: bool, policy: frozenset, num: int, depth_cmds: int, seed: int):
     """-> (behaviours, TLCResult, name).  The latitude constants are set to what the
     backend exhibited in the exhaustive part (a sub-model of the full model)."""
-    lat = [x for x in ('lenient', 'strict') if x in policy] or ['lenient', 'strict']
-    akw = [x for x in ('keep', 'drop') if x in policy] or ['keep', 'drop']
-    cfg = drv.write_cfg(f's_{int(kw)}_{"".join(sorted(lat + akw))}_{num}.cfg', kw=kw, lat=lat,
+    def res_of(point, default):
+        got = sorted({r for p_, r in policy if p_ == point})
+        return got or list(default)
+    oor, rec, akw = res_of('oor', BOTH), res_of('rec', BOTH), res_of('kw', ('keep', 'drop'))
+    tag = '-'.join('.'.join(x) for x in (oor, rec, akw))
+    cfg = drv.write_cfg(f's_{int(kw)}_{tag}_{num}.cfg', kw=kw, latoor=oor, latrec=rec,
                         appendkw=akw, inits=['std', 'empty'], maxcmds=depth_cmds,
                         maxuid=12, profile='full', twolevel=True, props=True)
     behs, res = tlc.simulate(SPEC, cfg, num=num, depth=2 * depth_cmds + 1, seed=seed,
                              timeout=1500)
-    name = f'RefMailbox -simulate kw={kw} Lat={lat} AppendKw={akw} num={num}'
+    name = f'RefMailbox -simulate kw={kw} LatOor={oor} LatRec={rec} AppendKw={akw} num={num}'
     return ([[(l, norm(s)) for l, s in beh if not l.startswith('Pick')] for beh in behs],
             res, name)
 
@@ -1203,8 +1209,7 @@ def main(tier: str) -> int:
             f0 = tp.submit(_graph, drv, prof, False, 3)
             f1 = tp.submit(_graph, drv, prof, True, 3)
             fs = tp.submit(tlc.run_tlc, SPEC, drv.write_cfg(
-                'full1.cfg', kw=False, lat=['lenient', 'strict'], appendkw=['keep', 'drop'],
-                inits=['std', 'empty'], maxcmds=1, maxuid=12, profile='full', twolevel=False,
+                'full1.cfg', kw=False, inits=['std', 'empty'], maxcmds=1, maxuid=12, profile='full', twolevel=False,
                 props=True), workers=4)
             (g0, n0, r0, nm0), (g1, n1, r1, nm1), sres = f0.result(), f1.result(), fs.result()
         for res, name in ((r0, nm0), (r1, nm1),
@@ -1259,7 +1264,8 @@ def main(tier: str) -> int:
             drv.sim_phase(bname, sims[key][:num], budget)
         run.notes['per_backend'] = drv.stats
         run.notes['workers'] = drv.workers
-        run.notes['latitude_resolutions_exhibited'] = {b: sorted(p) for b, p in drv.policy.items()}
+        run.notes['latitude_resolutions_exhibited'] = {
+            b: sorted('%s:%s' % c for c in p) for b, p in drv.policy.items()}
         run.cov['exhaustive'] = not quick and not any(
             s.get('budget_exhausted') for s in drv.stats.values())
         run.notes['exhaustive_scope'] = (
